@@ -195,6 +195,34 @@ where
 	}
 }
 
+/// Decodes the components of an object identifier.
+///
+/// `Oid::iter()` takes the first two components from the first *octet* of the encoding, which
+/// is wrong whenever they are encoded in more than one octet or the second one is above 39,
+/// that is for `2.x` with `x >= 40` (such as the example arc 2.999).
+#[cfg(feature = "x509-parser")]
+pub(crate) fn oid_components(oid: &x509_parser::der_parser::asn1_rs::Oid<'_>) -> Option<Vec<u64>> {
+	let mut sub_identifiers = Vec::new();
+	let mut value = 0u64;
+	for byte in oid.as_bytes() {
+		if value > u64::MAX >> 7 {
+			return None;
+		}
+		value = value << 7 | u64::from(byte & 0x7f);
+		if byte & 0x80 == 0 {
+			sub_identifiers.push(value);
+			value = 0;
+		}
+	}
+	let (first, rest) = sub_identifiers.split_first()?;
+	let first_two = match first {
+		0..=39 => [0, *first],
+		40..=79 => [1, first - 40],
+		_ => [2, first - 80],
+	};
+	Some(first_two.into_iter().chain(rest.iter().copied()).collect())
+}
+
 #[cfg(feature = "x509-parser")]
 fn ip_addr_from_octets(octets: &[u8]) -> Result<IpAddr, Error> {
 	if let Ok(ipv6_octets) = <&[u8; 16]>::try_from(octets) {
@@ -222,7 +250,7 @@ impl SanType {
 				SanType::IpAddress(ip_addr_from_octets(octets)?)
 			},
 			x509_parser::extensions::GeneralName::OtherName(oid, value) => {
-				let oid = oid.iter().ok_or(Error::CouldNotParseCertificate)?;
+				let oid = oid_components(oid).ok_or(Error::CouldNotParseCertificate)?;
 				// We first remove the explicit tag ([0] EXPLICIT)
 				let (_, other_name) = TaggedExplicit::<asn1_rs::Any, _, 0>::from_der(value)
 					.map_err(|_| Error::CouldNotParseCertificate)?;
@@ -236,7 +264,7 @@ impl SanType {
 					),
 					_ => return Err(Error::CouldNotParseCertificate),
 				};
-				SanType::OtherName((oid.collect(), other_name_value))
+				SanType::OtherName((oid, other_name_value))
 			},
 			_ => return Err(Error::InvalidNameType),
 		})
@@ -375,11 +403,9 @@ impl DistinguishedName {
 				panic!("x509-parser distinguished name set is empty");
 			};
 
-			let attr_type_oid = attr
-				.attr_type()
-				.iter()
-				.ok_or(Error::CouldNotParseCertificate)?;
-			let dn_type = DnType::from_oid(&attr_type_oid.collect::<Vec<_>>());
+			let attr_type_oid =
+				oid_components(attr.attr_type()).ok_or(Error::CouldNotParseCertificate)?;
+			let dn_type = DnType::from_oid(&attr_type_oid);
 			let data = attr.attr_value().data;
 			let try_str =
 				|data| std::str::from_utf8(data).map_err(|_| Error::CouldNotParseCertificate);
